@@ -90,3 +90,99 @@ Proof. vm_compute. reflexivity. Qed.
 (* unpack_byte_array on a buffer cut inside the last item *)
 Lemma unpack_byte_array_truncated_oob : c_unpack_byte_array [3; 0; 0; 0; 97; 98] 1 = UOOB.
 Proof. vm_compute. reflexivity. Qed.
+
+(* a well-formed DELTA_BINARY_PACKED page as other writers produce it: the width byte of the unneeded trailing
+   miniblock is stale (5, not 0).  Block of 16 values, 2 miniblocks of 8; 9 values 1..9 (first value 1, min delta 1, the
+   8 deltas fill miniblock 0 with width 0); miniblock 1 carries no value and has no body.  The spec decoder ignores the
+   stale byte; the model of the compiled decoder reaches that miniblock with exactly one value left (`count > 1` is
+   false), does not unpack it and ends with the input cursor AT the end of the page. *)
+From Pq Require Codec.Delta.
+Definition delta_stale_page : bytes := [16; 2; 9; 2; 2; 0; 5].
+Lemma delta_stale_width_spec : Pq.Codec.Delta.delta_dec 32 delta_stale_page = Some ([1; 2; 3; 4; 5; 6; 7; 8; 9]%Z, []).
+Proof. vm_compute. reflexivity. Qed.
+Lemma delta_stale_width_ok :
+  c_delta_binary_unpack delta_stale_page (repN 2863311530 9 []) 36 false = Ok ([1; 2; 3; 4; 5; 6; 7; 8; 9], 7, 36).
+Proof. vm_compute. reflexivity. Qed.
+
+(* ---- the class behind that example, for EVERY stale width and every miniblock reader ----------------------------
+   delta_binary_unpack arriving at a miniblock with exactly one value left (count = 1: all deltas are consumed) and a
+   non-zero width byte - a stale byte of an unneeded miniblock; 'readers must accept arbitrary values' there - stores the
+   last value and returns WITHOUT consuming any input: the miniblock reader is not entered, whatever the width byte says
+   (1..255) and whatever reader is plugged in.  (Dropping the `count > 1` guard of the compiled code makes this false:
+   the reader would pull values_per_miniblock * width / 8 bytes from behind the page.) *)
+Lemma w32_small z : (0 <= z < 2 ^ 32)%Z -> w32 z = Z.to_N z.
+Proof. intros H. unfold w32. rewrite Z.mod_small by exact H. reflexivity. Qed.
+
+Lemma stale_miniblock_reads_nothing isz vpm mpb reader s ws i md w v :
+  u_ph s = PMini ws i md -> i < mpb -> get_nth ws i = Some w -> w <> 0 ->
+  u_count s = 1%Z -> 0 < vpm -> 0 < isz ->
+  o_loc (u_o s) + isz <= o_nbytes (u_o s) -> o_nbytes (u_o s) < 2 ^ 32 ->
+  o_loc (u_o s) mod isz = 0 ->
+  get_nth (o_items (u_o s)) (o_loc (u_o s) / isz) = Some v ->
+  exists s1 s2, u_step isz vpm mpb reader s = Ok s1 /\ u_step isz vpm mpb reader s1 = Ok s2 /\
+                u_ph s2 = PDone /\ u_inp s2 = u_inp s /\ u_used s2 = u_used s.
+Proof.
+  intros Hph Hi Hw Hw0 Hc Hvpm Hisz Hroom Hnb Hal Hget.
+  set (o := u_o s) in *.
+  assert (Hr : o_room o isz = true).
+  { unfold o_room. rewrite w32_small by lia. apply negb_true_iff, N.ltb_ge. lia. }
+  assert (Hcond : (o_loc o + isz <=? o_nbytes o) && (o_loc o mod isz =? 0) = true).
+  { apply andb_true_intro. split; [apply N.leb_le; exact Hroom | apply N.eqb_eq; exact Hal]. }
+  eexists. eexists. split; [|split].
+  - unfold u_step. rewrite Hph.
+    replace (mpb <=? i) with false by (symmetry; apply N.leb_gt; exact Hi).
+    rewrite Hw. replace (w =? 0) with false by (symmetry; apply N.eqb_neq; exact Hw0).
+    rewrite Hc. cbn [Z.ltb Z.compare Pos.compare Pos.compare_cont]. reflexivity.
+  - unfold u_step, with_ph. cbn [u_ph u_o u_inp u_used u_value u_count].
+    replace (vpm <=? 0) with false by (symmetry; apply N.leb_gt; exact Hvpm).
+    fold o. unfold o_read. rewrite Hr, Hcond, Hget.
+    cbn [o_seek o_loc o_items o_nbytes].
+    rewrite (w32_small (Z.of_N (o_loc o + isz))) by lia.
+    rewrite N2Z.id.
+    replace (w32 (Z.of_N (o_loc o + isz) - Z.of_N isz)) with (o_loc o)
+      by (rewrite w32_small by lia; lia).
+    unfold o_write, o_room. cbn [o_seek o_loc o_items o_nbytes].
+    rewrite (w32_small (Z.of_N (o_nbytes o) - Z.of_N (o_loc o))) by lia.
+    replace (Z.to_N (Z.of_N (o_nbytes o) - Z.of_N (o_loc o)) <? isz) with false
+      by (symmetry; apply N.ltb_ge; lia).
+    cbn [negb]. rewrite Hcond. reflexivity.
+  - unfold after_value. cbn [u_ph u_inp u_used u_count]. rewrite Hc. cbn. repeat split; reflexivity.
+Qed.
+
+(* ---- the OUTPUT side of delta_binary_unpack's scratch use: checked writes never leave the buffer ---------------------- *)
+Lemma set_nth_length l i v : length (set_nth l i v) = length l.
+Proof. revert i. induction l as [|x l IH]; intros i; cbn [set_nth]; [reflexivity|]. destruct (i =? 0); cbn [length]; [reflexivity|]. now rewrite IH. Qed.
+
+(* a checked NumpyIO write (write_int / write_long) with an aligned cursor inside a buffer of whole items: never outside,
+   the cursor stays aligned and inside, the buffer keeps its size - it either stores the item or drops it *)
+Lemma o_write_inside isz o v :
+  0 < isz -> o_loc o mod isz = 0 -> o_nbytes o mod isz = 0 -> o_loc o <= o_nbytes o -> o_nbytes o < 2 ^ 32 ->
+  exists o', o_write isz o v = Ok o' /\ o_nbytes o' = o_nbytes o /\ o_loc o' mod isz = 0 /\ o_loc o' <= o_nbytes o' /\
+             length (o_items o') = length (o_items o).
+Proof.
+  intros Hisz Hal Hnb Hle Hlt. unfold o_write, o_room.
+  rewrite w32_small by lia.
+  destruct (Z.to_N (Z.of_N (o_nbytes o) - Z.of_N (o_loc o)) <? isz) eqn:E; cbn [negb].
+  - exists o. repeat split; try assumption; reflexivity.
+  - apply N.ltb_ge in E.
+    assert (H1 : o_loc o + isz <= o_nbytes o) by lia.
+    replace (o_loc o + isz <=? o_nbytes o) with true by (symmetry; apply N.leb_le; exact H1).
+    replace (o_loc o mod isz =? 0) with true by (symmetry; apply N.eqb_eq; exact Hal).
+    cbn [andb]. eexists. split; [reflexivity|]. cbn [o_nbytes o_loc o_items].
+    rewrite w32_small by lia. rewrite N2Z.id.
+    repeat split; try assumption.
+    + rewrite N.add_mod by lia. rewrite Hal, N.mod_same by lia. cbn [N.add]. apply N.mod_0_l. lia.
+    + apply set_nth_length.
+Qed.
+
+Lemma o_write_all_inside isz vs : forall o,
+  0 < isz -> o_loc o mod isz = 0 -> o_nbytes o mod isz = 0 -> o_loc o <= o_nbytes o -> o_nbytes o < 2 ^ 32 ->
+  exists o', o_write_all isz o vs = Ok o' /\ o_nbytes o' = o_nbytes o /\ o_loc o' mod isz = 0 /\ o_loc o' <= o_nbytes o' /\
+             length (o_items o') = length (o_items o).
+Proof.
+  induction vs as [|v vs IH]; intros o Hisz Hal Hnb Hle Hlt; cbn [o_write_all].
+  - exists o. repeat split; try assumption; reflexivity.
+  - destruct (o_write_inside isz o v Hisz Hal Hnb Hle Hlt) as [o1 [E [N1 [A1 [L1 I1]]]]]. rewrite E.
+    destruct (IH o1 Hisz A1 ltac:(rewrite N1; exact Hnb) L1 ltac:(rewrite N1; exact Hlt)) as [o2 [E2 [N2 [A2 [L2 I2]]]]].
+    exists o2. repeat split; try assumption; congruence.
+Qed.
